@@ -139,6 +139,20 @@ class Unit:
             mine = [n for n in mine if n not in set(bad)]
 
 
+def ctor_unit_source(ctx, cfg="op"):
+    """for C20: the generated translation unit of the constructor batches of one configuration (quick lists) -> (path, flags)"""
+    lst = ctx.scratch.path("c17_list_for_c20.txt")
+    ctx.mc("MC_C17", env={"OUT": lst}, what="enumeration of the constructor shapes for the sanitizer-monitored replay of the C17 constructor unit")
+    items_cache["items"] = gen.parse_list(lst)
+    gdir = ctx.scratch.path("gen_c20")
+    os.makedirs(gdir, exist_ok=True)
+    fam = Family(ctx, cfg + "san", cfg, False, "clang++", gdir)
+    mine = [n for i, n in enumerate(fam.present) if IS_CTOR(n, i)]
+    tu = os.path.join(fam.gdir, "c17_%s_ctor_san.cpp" % cfg)
+    gen.write_tu(tu, cfg, mine, label=cfg + "_ctor")
+    return tu, list(gen.CONFIGS[cfg]["flags"]), fam.gdir
+
+
 items_cache = {}
 IS_AV2 = lambda n, i: n.endswith("_av2")
 IS_SWZ = lambda n, i: "_swz" in n and not n.endswith("_av2")
